@@ -133,6 +133,10 @@ impl Parser {
                 }
             }
 
+            if type_at_idx.has_list_without_element_type() {
+                return Err(vec![new_err(ident_span, file_name, format!("unpacking index [{idx}] would name a list of type `{type_at_idx}`, which does not say what the list holds"))]);
+            }
+
             let cloned = type_at_idx.clone().into_owned();
             ident
                 .link_force_no_inherit(input.user_data(), Cow::Owned(cloned))
